@@ -48,6 +48,9 @@ pub struct Wiring {
     /// the input file argument is a named pipe fed by another process (only for 1..60000-byte inputs)
     #[serde(default)]
     pub in_fifo: bool,
+    /// the passwords are typed at the prompt on a controlling terminal instead of --env-pass
+    #[serde(default)]
+    pub typed_pass: bool,
 }
 
 #[derive(Serialize, Deserialize, Clone, Debug, PartialEq)]
@@ -259,6 +262,7 @@ fn build_inv(s: &Scn, w: &World, wi: &Wiring, input_name: &str, out_name: &str) 
     if !wi.in_file {
         inv.stdin = if wi.stdin_pipe { Stdin::Pipe(vec![]) } else { Stdin::File(input_name.to_string()) };
     }
+    inv.pass_via_tty = wi.typed_pass;
     inv
 }
 
@@ -329,13 +333,13 @@ impl Family for B1 {
         let mut wirings = vec![];
         if nw == 32 {
             for m in 0..32u32 {
-                wirings.push(Wiring { in_file: m & 1 == 1, stdin_pipe: rng.chance(1, 2) && len <= 60000, out_opt: m & 2 == 2, keyring_opt: m & 4 == 4, long: m & 8 == 8, alias: m & 16 == 16, opts_first: rng.chance(1, 2), in_fifo: rng.chance(1, 5) });
+                wirings.push(Wiring { in_file: m & 1 == 1, stdin_pipe: rng.chance(1, 2) && len <= 60000, out_opt: m & 2 == 2, keyring_opt: m & 4 == 4, long: m & 8 == 8, alias: m & 16 == 16, opts_first: rng.chance(1, 2), in_fifo: rng.chance(1, 5), typed_pass: false });
             }
         } else {
             // a covering sample: the all-default wiring, its complement, and two random ones
             let m0 = rng.below(32) as u32;
             for m in [m0, !m0 & 31, rng.below(32) as u32, rng.below(32) as u32] {
-                wirings.push(Wiring { in_file: m & 1 == 1, stdin_pipe: rng.chance(1, 2) && len <= 60000, out_opt: m & 2 == 2, keyring_opt: m & 4 == 4, long: m & 8 == 8, alias: m & 16 == 16, opts_first: rng.chance(1, 2), in_fifo: rng.chance(1, 5) });
+                wirings.push(Wiring { in_file: m & 1 == 1, stdin_pipe: rng.chance(1, 2) && len <= 60000, out_opt: m & 2 == 2, keyring_opt: m & 4 == 4, long: m & 8 == 8, alias: m & 16 == 16, opts_first: rng.chance(1, 2), in_fifo: rng.chance(1, 5), typed_pass: false });
             }
         }
         // a third of the scenarios: a valid decryption of a file from a stranger whose encoded key
@@ -348,7 +352,7 @@ impl Family for B1 {
             _ => SenderPos::Absent,
         };
         let is_encryption = matches!(op, Op::PassEncrypt | Op::Encrypt);
-        Scn {
+        let mut scn = Scn {
             op,
             material,
             plain: Plain { len, fill_seed: rng.next_u64() },
@@ -367,7 +371,13 @@ impl Family for B1 {
             // encryptions are often second runs onto the same output name
             prior_output_len: if rng.chance(1, 3) || (is_encryption && rng.chance(1, 2)) { Some(len + 200 + rng.usize_below(100000)) } else { None },
             decoy_bad_checksum: rng.chance(1, 3),
+        };
+        // derived from the scenario seed, not drawn: one wiring in four types its passwords on a terminal
+        let mut t = scn.seed ^ 0x7479;
+        for w in scn.wirings.iter_mut() {
+            w.typed_pass = crate::rng::splitmix(&mut t) % 4 == 0;
         }
+        scn
     }
 
     fn execute(&self, s: &Scn) -> RunOut {
@@ -645,6 +655,7 @@ impl Family for B1 {
             }
         }
         out.count("probe.cli_invocations", runs.len() as u64);
+        out.count("probe.passwords_typed_on_terminal", s.wirings.iter().filter(|w| w.typed_pass).count() as u64);
         out.count(&format!("probe.material.{:?}", s.material).split('(').next().unwrap().to_string(), 1);
         out.trace_hash = th;
         out.steps = runs.len() as u64;
@@ -682,12 +693,19 @@ impl Family for B1 {
             t.decoy_bad_checksum = false;
             c.push(t);
         }
+        if s.wirings.iter().any(|w| w.typed_pass) {
+            let mut t = s.clone();
+            for w in t.wirings.iter_mut() {
+                w.typed_pass = false;
+            }
+            c.push(t);
+        }
         c
     }
     fn real_components(&self) -> Vec<&'static str> {
         vec!["the kestrel binary built from the working tree (src/cli: main.rs, commands.rs, keyring.rs; src/crypto), shipped release profile", "getopts, passterm, ct-codecs, anyhow, orion", "the kernel's files and pipes inside the sandbox directory"]
     }
     fn simulated_components(&self) -> Vec<&'static str> {
-        vec!["the invoking shell: argv, environment, stdin/stdout wiring, sandbox directory contents", "absent controlling terminal (setsid)", "OS entropy (KESTREL_VERIF_ENTROPY_SEED), except in the OS-RNG repeats", "input artefacts (reference writer) and keyrings (reference lock)"]
+        vec!["the invoking shell: argv, environment, stdin/stdout wiring, sandbox directory contents", "the controlling terminal: absent (setsid), or a pseudo-terminal on which the passwords are typed at the prompt", "OS entropy (KESTREL_VERIF_ENTROPY_SEED), except in the OS-RNG repeats", "input artefacts (reference writer) and keyrings (reference lock)"]
     }
 }
